@@ -4,7 +4,7 @@ from vlib.core import X, Y, Z, E, ABS, U
 from vlib.printer import close
 
 ID = "C14"
-BUDGET = {"quick": 2500, "thorough": 25000}
+BUDGET = {"quick": 2000, "thorough": 25000}
 PROFILE = gen.profile(retract="matched", at_w=7, at_custom=True, streaming=True, home_mid=True, arcs=1, offon=3, set_at=1)
 RULE = ("C03-style programs with enable / disable / unrelated / malformed @-commands inserted anywhere (inside and outside "
         "episodes), default and generated custom action tables (several entries per command, patterns from a small regex pool, "
